@@ -18,11 +18,14 @@ import (
 func successBlocks(fn *ssa.Function) []*ssa.BasicBlock {
 	var out []*ssa.BasicBlock
 	for _, b := range fn.Blocks {
+		if b == fn.Recover {
+			continue // the block a recovered panic resumes at returns whatever the result cells hold
+		}
 		r, ok := b.Instrs[len(b.Instrs)-1].(*ssa.Return)
-		if !ok || len(r.Results) == 0 {
+		if !ok || len(load.Results(r)) == 0 {
 			continue
 		}
-		e := r.Results[len(r.Results)-1]
+		e := load.Results(r)[len(load.Results(r))-1]
 		if c, ok := e.(*ssa.Const); ok {
 			if c.IsNil() {
 				out = append(out, b)
